@@ -341,6 +341,19 @@ def run(sh, spec):
                     sh.case(("similar", tuple(line)), True)
                     sh.count("near_miss_lines")
             sh.tag("line_shapes", "near-miss-first-token")
+            # a chain of defaults: server -> add (default) -> user (default / anonymous): the walk continues ONE step from the named command
+            for inner_kind in ("default", "anon"):
+                def leaf(name, kind="plain", subs=(), aliases=()):
+                    return dict(name=name, aliases=list(aliases), kind=kind, desc="d", help=None, subs=list(subs), opts=[],
+                                args=[] if subs else [dict(name=name + "rest", kind="opt", multi=True, desc="d", default=None)])
+
+                tree = [leaf("server", subs=[leaf("add", "default", subs=[leaf("user", inner_kind), leaf("group")]), leaf("del")], aliases=["srv"]), leaf("other")]
+                log = T.HandlerLog()
+                app, cfg = T.build_app(tree, env.api, log, io_factory=env.io_factory)
+                for line in (["server"], ["srv"], ["server", "x"], ["server", "add"], ["server", "add", "user"], ["server", "add", "group"], ["server", "--", "add"], ["server", "del"], []):
+                    judge_line(sh, env, app, log, tree, line, {"tree": "default-chain-" + inner_kind, "tokens": line})
+                    sh.case(("default-chain", inner_kind, tuple(line)), True)
+            sh.tag("line_shapes", "default-chain")
         st = small_trees()
         for tree in st[i::n]:
             judge_tree(sh, env, tree, rng)
